@@ -73,8 +73,10 @@ def add_blank_and_comments(toks, rng, p=0.3):
         if k == "nl":
             cont = prev_sig is not None and prev_sig == ("sym", "\\")
             if not cont and rng.random() < p and (not out or out[-1][0] != "com"):
-                out.append(("ws", " "))
-                out.append(("com", rng.choice(["; c", ";", "; ld a, 1", "; \"quote", "; é @db `"])))
+                # directly after the last token (also after a number: `ld a,5;note`) or after a space
+                if rng.random() < 0.6 or (out and out[-1][0] in ("str", "chr")):
+                    out.append(("ws", " "))
+                out.append(("com", rng.choice(["; c", ";", ";note", "; ld a, 1", "; \"quote", "; é @db `"])))
             out.append((k, t))
             if not cont and rng.random() < p:
                 out.append(("nl", "\n"))
